@@ -184,6 +184,7 @@ class FnTr:
         self.table = table                 # python callee text -> Fn (for calls to other translated functions)
         self.vars = {k: parse_type(v) for k, v in spec.vars.items()}
         self.tmp = 0
+        self.consts = {}                   # module-level integer constants of the source file (e.g. REMOVAL = -2)
         self.extra_vars = {}               # temporaries introduced by comprehension lowering
         self.aux = []                      # hoisted loop bodies / conditions: (name, lean type, code)
         self.nloop = 0
@@ -237,6 +238,8 @@ class FnTr:
         raise Untranslatable(f"constant {e.value!r}")
 
     def e_Name(self, e, want):
+        if e.id in self.consts and e.id not in self.vars:
+            return [], f"({self.consts[e.id]} : Int)", "Int"
         if e.id in self.spec.callbacks:
             raise Untranslatable(f"callback `{e.id}` used as a value")
         ty = self.var_type(e.id)
@@ -374,6 +377,8 @@ class FnTr:
         # element-wise comparisons of arrays
         if isinstance(ta, tuple) and ta == ("List", "Int") and tb == "Int" and isinstance(op, ast.Eq):
             return s1 + s2, f"(Py.eqMask {a} {b})", ("List", "Bool")
+        if isinstance(ta, tuple) and ta == ("List", "Int") and tb == "Int" and isinstance(op, ast.NotEq):
+            return s1 + s2, f"(Py.neMask {a} {b})", ("List", "Bool")
         if ta == ("List", "Int") and tb == ("List", "Int") and isinstance(op, ast.Lt):
             return s1 + s2, f"(Py.ltMask {a} {b})", ("List", "Bool")
         sym = {ast.Eq: "=", ast.NotEq: "≠", ast.Lt: "<", ast.LtE: "≤", ast.Gt: ">", ast.GtE: "≥"}.get(type(op))
@@ -412,7 +417,21 @@ class FnTr:
         return f"({out}some ({code}))"
 
     def e_Subscript(self, e, want):
+        # `x.shape[0]` of a 1-d array
+        if (isinstance(e.value, ast.Attribute) and e.value.attr == "shape" and isinstance(e.slice, ast.Constant) and e.slice.value == 0):
+            s0, c, t = self.tr(e.value.value)
+            if isinstance(t, tuple) and t[0] == "List":
+                return s0, f"(Py.len {c})", "Int"
         s1, a, ta = self.tr(e.value)
+        # constant index into a tuple
+        if isinstance(ta, tuple) and ta[0] == "Prod" and isinstance(e.slice, ast.Constant) and isinstance(e.slice.value, int):
+            parts, t, n = [], ta, 1
+            while isinstance(t, tuple) and t[0] == "Prod":
+                parts.append(t[1]); t = t[2]; n += 1
+            parts.append(t)
+            k = e.slice.value
+            if 0 <= k < n:
+                return s1, proj(a, k, n), parts[k]
         if isinstance(e.slice, ast.Slice):
             raise Untranslatable(f"slice `{ast.unparse(e)}`")
         s2, i, ti = self.tr(e.slice)
@@ -1061,6 +1080,13 @@ spec(lean="lazy_getitem", module="AlgoPopulation", file="swcgeom/core/population
      callbacks={"Tree.from_swc": ("(read : σ → Int → σ × Int)", 1, "Int")})
 
 
+spec(lean="to_sub_topology", module="AlgoSubtree", file="swcgeom/core/swc_utils/subtree.py", func="to_sub_topology",
+     params=["sub"],
+     vars={"sub": "(List Int) × (List Int)", "sub_id": "List Int", "sub_pid": "List Int", "keeped_id": "List Bool",
+           "old2new": "Dict Int Int", "new_id": "List Int", "new_pid": "List Int"},
+     ret="((List Int) × (List Int)) × (List Int)")
+
+
 def regenerate(modules=None):
     """rewrite Gen/<module>.lean for the given modules (default: all) from the current sources; returns failure messages"""
     fails = []
@@ -1090,6 +1116,14 @@ def regenerate(modules=None):
                     cache[p] = ast.parse(p.read_text())
                 fdef = find_def(cache[p], sp.cls, sp.func)
                 tr = FnTr(sp, table)
+                for nd in cache[p].body:
+                    if (isinstance(nd, ast.Assign) and len(nd.targets) == 1 and isinstance(nd.targets[0], ast.Name)):
+                        try:
+                            val = ast.literal_eval(nd.value)
+                        except (ValueError, SyntaxError):
+                            continue
+                        if isinstance(val, int) and not isinstance(val, bool):
+                            tr.consts[nd.targets[0].id] = val
                 out.append(tr.translate(fdef))
             except Untranslatable as e:
                 fails.append(f"translate_algo: {sp.file}::{sp.func}: {e}")
